@@ -300,3 +300,33 @@ func CryptoDoc(kind, marker string, container string) []byte {
 
 // CryptoKinds lists the location kinds of CryptoDoc.
 var CryptoKinds = []string{"plain", "nested", "annotation", "attachment", "outline", "xmp", "filters", "blockaligned", "sigdict"}
+
+// FormDoc builds small AcroForm documents by hand.
+//   "flat-own-da":      AcroForm without /DA; one top-level text field carrying its own /DA
+//   "nested-inherit-da": AcroForm with /DA; a non-terminal field 'person' (no /FT) with a terminal text kid that inherits /DA
+func FormDoc(variant string) []byte {
+	d := Simple([]PageSpec{{Marker: 1}}, SimpleOpts{Title: "form " + variant})
+	pg := firstPageRef(d)
+	helv := d.Add("<</Type/Font/Subtype/Type1/BaseFont/Helvetica/Encoding/WinAnsiEncoding>>")
+	var fields, annots string
+	da := ""
+	switch variant {
+	case "flat-own-da":
+		f := d.Add(fmt.Sprintf("<</FT/Tx/T(a)/V(va)/DA(/Helv 12 Tf 0 g)/Type/Annot/Subtype/Widget/Rect[50 700 200 720]/F 4/P %s>>", pg))
+		fields, annots = Ref(f), Ref(f)
+	default:
+		da = "/DA(/Helv 10 Tf 0 g)"
+		parent := d.Reserve()
+		kid := d.Add(fmt.Sprintf("<</FT/Tx/T(name)/V(vn)/Parent %s/Type/Annot/Subtype/Widget/Rect[50 650 200 670]/F 4/P %s>>", Ref(parent), pg))
+		d.Set(parent, fmt.Sprintf("<</T(person)/Kids[%s]>>", Ref(kid)))
+		fields, annots = Ref(parent), Ref(kid)
+	}
+	d.PatchCatalog(fmt.Sprintf("/AcroForm<</Fields[%s]%s/DR<</Font<</Helv %s>>>>>>", fields, da, Ref(helv)))
+	for _, nr := range sortedKeys(d.objs) {
+		if Ref(nr) == pg {
+			o := d.objs[nr]
+			o.body = strings.TrimSuffix(o.body, ">>") + fmt.Sprintf("/Annots[%s]>>", annots)
+		}
+	}
+	return d.Bytes()
+}
